@@ -54,6 +54,24 @@ theorem C10_unique_names_closed_form (prior : UState) (reqs : List Req) :
     namesInFile prior reqs = specNames [] reqs :=
   issue_eq_spec resetState [] reqs (by intro k; simp [resetState, lookup])
 
+/-- The state is a map (domain, base token) ↦ counter and the reset clears EVERY domain: the closed form above holds for
+requests of any mixture of domains (`Req.key` is arbitrary).  A reset of the target language's domain alone would do
+only for files that request names in that domain … -/
+theorem C10_unique_names_domain_reset_only_for_own_domain (target : LineBuffer.Str) (prior : UState) (reqs : List Req)
+    (hown : ∀ r ∈ reqs, r.key = target) :
+    namesInFileDomainReset target prior reqs = namesInFile prior reqs := by
+  rw [C10_unique_names_closed_form]
+  apply issue_eq_spec_domain target _ [] reqs hown
+  intro k hk
+  simp [lookup_resetDomain, hk]
+
+/-- … and leaks the prior state as soon as a template borrows another language's filter (`ln.py.to_template_unique_name`
+in a C template): the names then depend on how many names earlier files and runs consumed. -/
+example : namesInFileDomainReset ['c'] [((['p', 'y'], ['x']), 3), ((['c'], ['x']), 5)]
+      [⟨['c'], ['x'], [], []⟩, ⟨['p', 'y'], ['x'], [], []⟩] = ["x0".toList, "x3".toList] ∧
+    namesInFile [((['p', 'y'], ['x']), 3), ((['c'], ['x']), 5)]
+      [⟨['c'], ['x'], [], []⟩, ⟨['p', 'y'], ['x'], [], []⟩] = ["x0".toList, "x0".toList] := by decide
+
 /-- Without the reset the prior state shows (what the reset is for; the C10 mutant). -/
 example : namesInFileNoReset [((['c'], ['x']), 3)] [⟨['c'], ['x'], ['_'], ['_']⟩]
     ≠ namesInFileNoReset [] [⟨['c'], ['x'], ['_'], ['_']⟩] := by decide
